@@ -48,8 +48,8 @@ def main():
       if f == 'demo.py':
         # demos are run with PYTHONPATH chosen by the caller: drop guards that
         # pin the sub-agent's own worktree path
-        txt = re.sub(r"^.*flax\.__file__.*$", "pass  # (path guard removed)",
-                     txt, flags=re.M)
+        txt = re.sub(r"^([ \t]*).*flax\.__file__.*$",
+                     r"\1pass  # (path guard removed)", txt, flags=re.M)
         txt = txt.replace(os.path.abspath(a.worktree), '/repo')
       open(os.path.join(out, f), 'w').write(txt)
   meta = {'property': a.prop, 'name': name, 'ran': []}
